@@ -48,12 +48,15 @@ def emission_order(gen_f) -> List[str]:
 
 def fstrings(f) -> List[str]:
     """Template texts of all f-strings / string constants returned or accumulated in f, with {expr} kept."""
+    from .. import guards as _g
+
+    cm = _g.copy_map(f.node)  # `name = field.type_name; f"RTMA.aliases.{name}"` reads as {field.type_name}
     out = []
     for n in walk_local(f.node):
         if isinstance(n, ast.JoinedStr):
             s = ""
             for v in n.values:
-                s += v.value if isinstance(v, ast.Constant) else "{" + norm(v.value) + "}"
+                s += v.value if isinstance(v, ast.Constant) else "{" + norm(_g.subst(v.value, cm)) + "}"
             out.append(s)
     return out
 
@@ -167,13 +170,35 @@ def run(prog: Program, chk: Check):
     gj = prog.func(js_mod, f"{js_cls}.generate")
     use_ns = None
     go_p = [q for q in go.params() if q != "self"][0]
-    fld_vars = {(lp.target.elts[-1] if isinstance(lp.target, ast.Tuple) else lp.target).id for lp in walk_local(go.node) if isinstance(lp, ast.For) and f"{go_p}.fields" in norm(lp.iter)
-                and isinstance((lp.target.elts[-1] if isinstance(lp.target, ast.Tuple) else lp.target), ast.Name)}
-    for t in fstrings(go):
+    from ..util import iterations as _iters
+
+    # the walk over the fields: a for loop or a comprehension; the templates may live in helpers generate_obj hands each field to
+    def _tg(t_):
+        t_ = t_.elts[-1] if isinstance(t_, ast.Tuple) else t_
+        return t_.id if isinstance(t_, ast.Name) else None
+
+    fld_vars = {_tg(i_.target) for i_ in _iters(go.node) if f"{go_p}.fields" in norm(i_.iter)} - {None}
+    go_fns = [go]
+    frontier = [(go, fld_vars)]
+    while frontier:
+        fcur, fvars = frontier.pop()
+        for c_ in calls_in(fcur.node):
+            if isinstance(c_.func, ast.Attribute) and path_of(c_.func.value) == "self" and fcur.cls is not None and c_.func.attr in fcur.cls.methods and prog.is_expanded_helper(fcur.cls.methods[c_.func.attr]):
+                callee = fcur.cls.methods[c_.func.attr]
+                if any(callee.key == x.key for x in go_fns):
+                    continue
+                b_ = callgraph.bind_args(callee, c_, bound_method=True)
+                pv = {p_ for p_, a_ in b_.items() if path_of(a_) in fvars}
+                if pv:
+                    go_fns.append(callee)
+                    fld_vars |= pv
+                    frontier.append((callee, pv))
+    _go_strings = [t_ for fn_ in go_fns for t_ in fstrings(fn_)]
+    for t in _go_strings:
         m = re.match(r"RTMA\.(\w+)\.\{(\w+)\.type_name\}", t)
         if m and "aliases" in t and m.group(2) in fld_vars:
             use_ns = m.group(1)
-    called = any(re.search(r"\{\w+\}\(\)", t) for t in fstrings(go))
+    called = any(re.search(r"\{\w+\}\(\)", t) for t in _go_strings)
     if use_ns is None or not called:
         raise AnalysisError("anchor vanished: JS field templates (RTMA.aliases.{field.type_name} / {ftype}())")
     # each `if td.type_name in <table>` branch of generate_type_alias
@@ -228,8 +253,8 @@ def run(prog: Program, chk: Check):
         okn = ns in created and created[ns] < loops.get("aliases", 0)
         J.decide(okn, fkey(gj, f"namespace-created-before-aliases:{ns}"), where(gj), f"RTMA.{ns} exists before the alias section writes into it",
                  f"the alias section assigns RTMA.{ns}.<name> but `RTMA.{ns} = {{}}` is emitted " + ("later" if ns in created else "never") + ": TypeError at module load")
-    fills = [t for t in fstrings(go) if ".fill(" in t]
-    per_elem = [t for t in fstrings(go) if "Array.from(" in t]
+    fills = [t for t in _go_strings if ".fill(" in t]
+    per_elem = [t for t in _go_strings if "Array.from(" in t]
     J.decide(not any(re.search(r"fill\(\{\w+\}\(\)\)", t) for t in fills) and (bool(per_elem) or not fills), fkey(go, "array-elements"), where(go),
              "array members are constructed per element", "array fields are emitted as `Array(n).fill(f())`: one object shared by all elements when f is a struct/message factory")
 
@@ -280,7 +305,9 @@ def run(prog: Program, chk: Check):
         f0 = prog.func(modname, f"{clsname}.{fn}")
         us = unit(f0)
         f = f0
-        tests = " || ".join(norm(n.test) for u in us for n in walk_local(u.node) if isinstance(n, ast.If))
+        from .. import guards as _gx
+
+        tests = " || ".join(norm(_gx.subst(n.test, _gx.copy_map(u.node))) for u in us for n in walk_local(u.node) if isinstance(n, ast.If))
         covers = {"native": "type_map" in tests or any("type_map.get" in norm(u.node) for u in us), "alias": "parser.aliases" in tests, "struct": "parser.struct_defs" in tests, "message": "parser.message_defs" in tests}
         is_alias_fn = fn == "generate_type_alias"
         need = {"native", "alias", "struct"} if is_alias_fn else {"native", "alias", "struct", "message"}
